@@ -4,7 +4,7 @@ from core import World, hx, Line, parse_fs
 from gen import Gen, mode_line, cfg_line
 from suites import run_suite, parse_snap, esc, exp_silent
 
-LEAN_MODULES = ['GoSnaps.Props.C18', 'GoSnaps.Props.Tie.Escape', 'GoSnaps.Props.Tie.Snapshot', 'GoSnaps.Props.Tie.SnapshotIO', 'GoSnaps.Props.Tie.Flows']
+LEAN_MODULES = ['GoSnaps.Props.C18', 'GoSnaps.Props.Tie.Escape', 'GoSnaps.Props.Tie.Snapshot', 'GoSnaps.Props.Tie.SnapshotIO', 'GoSnaps.Props.Tie.Flows', 'GoSnaps.Props.Tie.Pipeline']
 
 SPECIAL = [
     'a: 1\n---\nb: 2\n',                                   # multi-document stream
